@@ -32,7 +32,7 @@ ASSUMPTIONS = [
     "tolerance scaled by cond(eigenvectors) of K: the mathematical conditioning of the eigen-decomposition the property presupposes",
     "non-excluded initial populations have a positive sum (0/0 normalisation is outside the property)",
 ]
-MIN_NONTRIVIAL = {"quick": 150, "thorough": 1500}
+MIN_NONTRIVIAL = {"quick": 150, "thorough": 250}  # the signature space (topology, n, order, pattern, exclude, path) saturates near 330
 DECIDING = ["matrices_compared", "mon:calculate_matrix", "mon:is_sequential", "mon:a_matrix", "equivalence_checked", "results_checked", "conservation_checked"]
 
 
@@ -203,7 +203,12 @@ def tolerance(Kmat, j, times):
     # conditioning of the mathematical problem: a relative perturbation eps of K changes expm(K t) j by
     # ~ eps * cond(V) * (1 + |K| t)
     growth = 1.0 + float(np.linalg.norm(Kmat, 2)) * float(np.max(times))
-    return 64 * np.finfo(float).eps * max(condV, 1.0) * growth * max(np.abs(j).sum(), 1.0) + 1e-300, condV
+    # plus the backward error LAPACK's eigen-decomposition of this K actually attains (residual K V - V L, up to
+    # ~1e3 eps |K| for stiff K): c(t) computed from it is exact for K + R V^-1, which moves c by <= t |R| cond(V) |j|
+    with np.errstate(all="ignore"):
+        resid = float(np.abs(Kmat @ V - V * ev).max())
+    jn = max(np.abs(j).sum(), 1.0)
+    return (64 * np.finfo(float).eps * max(condV, 1.0) * growth * jn + 4 * float(np.max(times)) * resid * max(condV, 1.0) * jn + 1e-300), condV
 
 
 def judge_matrix(case, order, labels, matrix, rec, ctx, cap):
@@ -370,6 +375,9 @@ def run_shard(spec, rec):
                 model, params = build_general(case, order, entry_perm=list(rng.permutation(len(case["km1"]))) if oi % 2 else None)
                 labels, matrix = evaluate(model, params, case["times"])
             except Exception as e:  # noqa
+                if not K.spectrum_ok(reference(case, order)[0])[0]:
+                    rec.skip("K has complex or near-degenerate eigenvalues (outside the property): evaluation raised")
+                    continue
                 rec.violation(f"raises:{type(e).__name__}:{case['topology']}", ctx, f"{type(e).__name__}: {str(e)[:200]}")
                 continue
             ok = judge_matrix(case, order, labels, matrix, rec, ctx, cap)
